@@ -609,6 +609,15 @@ def check_case(case, stats=None):
     src = render_body(case)
     if not bare_detection_agrees(case):
         return None, "skip-bare"
+    if verdict == "bad":
+        # a violation must be replayable: run the same case twice more.  (Seen once in 590 000 cases on a
+        # machine at load 80: xonsh read returncode None from an external last stage that had closed its
+        # stdout but was not yet reapable, and took it for success.)
+        for _ in range(2):
+            again = run_inproc(case)
+            if isinstance(again, tuple) or judge(case, again, ())[0] != "bad":
+                _state.setdefault("flaky", []).append("%r flags=%s: %s" % (src, case["flags"], detail))
+                return None, "flaky"
     if verdict == F1:
         return Failure("cmd-raise-skipped-in-chain", case, "%r: %s" % (src, detail), finding=F1), "known"
     kind = "outcome-differs"
@@ -690,6 +699,12 @@ def _record(st, case, f, status, family, extra_labels=()):
         return
     if status == "skip-bare":
         st.hist["skipped:bare-command-detection-differs-from-explicit-twin (C03 domain)"] += 1
+        return
+    if status == "flaky":
+        st.inconclusive += 1
+        st.hist["inconclusive:disagreement-not-reproducible"] += 1
+        for note in _state.pop("flaky", [])[:3]:
+            st.notes.append("not reproducible on immediate re-run: " + note[:600])
         return
     if status == "inconclusive":
         st.inconclusive += 1
@@ -1017,6 +1032,11 @@ def check_process_case(case, stats=None, scratch=None):
                            finding=F1)
             continue
         if verdict != "ok":
+            got2 = run_child(case, mode, scratch)
+            if isinstance(got2, tuple) or judge_process(case, got2)[0] != "bad":
+                _state.setdefault("flaky", []).append("%r flags=%s (%s): %s" % (render_body(case), case["flags"],
+                                                                                 mode, detail))
+                return None, "flaky"
             return Failure("process-outcome-differs", case,
                            "%r flags(RAISE,CMD)=%s run as %s: %s" % (render_body(case), case["flags"],
                                                                      "-c" if mode == "c" else "script file", detail),
@@ -1081,7 +1101,7 @@ def main(run):
         "expression statements over <= %d single-stage leaves: shapes %s x 26 leaf variants (5 forms x code {0,1} x "
         "2 lexical classes, + @$() argument with outer/inner failure x 2 classes) x 4 flag settings"
         % (nmax, [s[1] for s in small_shapes(nmax)]))
-    per = run.n(8000, 192000) // nw
+    per = run.n(6400, 192000) // nw
     common.pool_map(run, __name__, "worker_random",
                     [(common.worker_seed(run.seed, w), per, run.scratch) for w in range(nw)], procs=nw)
     pper = max(1, run.n(24, 320) // nw)
